@@ -796,6 +796,8 @@ def abslist_for(eng, st, lst, stmt):
                     res.append((s3, o3))
                     continue
                 for s4, o4 in eng.exec_block(s3, stmt.body):
+                    if o4[0] not in ("next", "continue") and o.meta.get("sorted_key") is not None and musts:
+                        _assume_sorted_prefix(eng, s3, s4, lst, stmt, musts, v, o.meta["sorted_key"])
                     if o4[0] in ("next", "continue", "break"):
                         new_eff = s4.effects[n_eff:]
                         if o4[0] != "break":
@@ -818,6 +820,52 @@ def _target_names(t):
             out.extend(_target_names(e))
         return out
     return []
+
+
+def _assume_sorted_prefix(eng, pre, post, lst, stmt, musts, cur, keyfn):
+    """The loop over a sorted list leaves at element `cur`: every element known to be in the list whose key is
+    strictly smaller was visited earlier and fell through.  `pre` is the state at the start of the iteration (used
+    to evaluate keys and the body's fall-through condition), `post` the state that leaves the loop."""
+    for g, m in musts:
+        if z3.is_false(g) or (isinstance(m, R) and isinstance(cur, R) and m.addr == cur.addr):
+            continue
+        # evaluate on a copy of the state that leaves the loop: the original pre-iteration state object may meanwhile
+        # have been advanced along a sibling path, and terms simplified under that path's condition are not valid here
+        probe = post.clone()
+        try:
+            km = eng.call_value(probe, keyfn, [m], {})
+            import os as _os
+            if _os.environ.get("VERIF_TRACE"):
+                print("sorted-prefix key outcomes", len(km), [o[1][0] for o in km])
+            if len(km) != 1 or km[0][1][0] != VAL:
+                continue
+            kc = eng.call_value(km[0][0], keyfn, [cur], {})
+            if len(kc) != 1 or kc[0][1][0] != VAL:
+                continue
+            sp = kc[0][0]
+            less = P.truth(sp, P.compare(sp, "<", km[0][1][1], kc[0][1][1]))
+            sp.pending = []
+            mark = sp.mark()
+            base = len(sp.pc)
+            conds = []
+            ok = True
+            for s3, o3 in eng.assign_target(sp, stmt.target, m):
+                if o3[0] != "next":
+                    ok = False
+                    break
+                for s4, o4 in eng.exec_block(s3, stmt.body):
+                    if o4[0] not in ("next", "continue"):
+                        continue
+                    if not s4.clean_since(mark):
+                        ok = False
+                        break
+                    conds.append(zand(*s4.pc[base:]))
+            if _os.environ.get("VERIF_TRACE"):
+                print("sorted-prefix", ok, len(conds))
+            if ok:
+                post.assume(z3.Implies(zand(g, less), zor(*conds)))
+        except OutOfSubset:
+            continue
 
 
 def _assume_fallthrough(eng, st, lst, stmt, musts):
@@ -1336,7 +1384,7 @@ def _set(eng, st, recv, args, kwargs):
 @bf("sorted")
 def _sorted(eng, st, recv, args, kwargs):
     seq = args[0]
-    if isinstance(seq, R) and st.obj(seq).kind == "abslist":
+    if isinstance(seq, R) and (st.obj(seq).kind == "abslist" or "iter" in st.obj(seq).meta):
         h = eng.handlers.get("sorted_abslist")
         if h is None:
             raise OutOfSubset("sorted() over an abstract collection needs a model")
